@@ -98,13 +98,23 @@ def generate():
     if "self.decision_version = best" not in ast.unparse(evh):
         raise P.Untranslatable("evaluateHello no longer records decision_version = best")
 
-    # --- header cap in dataReceived:  if len(self.buffer) > 4096: raise BananaError
+    # --- header cap in dataReceived: the terminator is searched first, and the block is refused when the
+    #     terminator lies beyond the cap or is absent with more than cap bytes buffered
     dr = P.find_def(mod, "Negotiation.dataReceived")
-    caps = [n for n in ast.walk(dr) if isinstance(n, ast.If) and ast.unparse(n.test).startswith("len(self.buffer) >")]
-    if len(caps) != 1 or not isinstance(caps[0].test.comparators[0], ast.Constant) or \
-            not any(isinstance(s, ast.Raise) for s in caps[0].body):
+    caps = [n for n in ast.walk(dr) if isinstance(n, ast.If) and "len(self.buffer) >" in ast.unparse(n.test)]
+    if len(caps) != 1 or not any(isinstance(s, ast.Raise) for s in caps[0].body):
         raise P.Untranslatable("dataReceived: header cap changed")
-    out.append("Definition negotiation_header_cap : Z := %d." % caps[0].test.comparators[0].value)
+    m = __import__("re").fullmatch(r"eoh > (\d+) or \(?eoh == -1 and len\(self\.buffer\) > (\d+)\)?", ast.unparse(caps[0].test))
+    if not m or m.group(1) != m.group(2):
+        raise P.Untranslatable("dataReceived: header cap test is %s" % ast.unparse(caps[0].test))
+    # the find must precede the cap test, the early return must follow it
+    body = [ast.unparse(x) for x in ast.walk(dr) if isinstance(x, (ast.Assign, ast.If))]
+    finds = [i for i, t in enumerate(body) if t.startswith("eoh = self.buffer.find(b'\\r\\n\\r\\n')")]
+    capi = [i for i, t in enumerate(body) if t.startswith("if eoh >")]
+    if len(finds) != 1 or len(capi) != 1 or not finds[0] < capi[0]:
+        raise P.Untranslatable("dataReceived: terminator search does not precede the header cap")
+    out.append("Definition negotiation_header_cap : Z := %s." % m.group(1))
+    out.append("Definition negotiation_cap_counts_following_data : bool := false.  (* the cap is tested on the block only *)")
 
     # --- vocab tables
     vm = P.load("vocab.py")
